@@ -13,8 +13,36 @@ def dentry? (s : String) : Option DEntry :=
            idReq := ← Driver.optNat? r, key := ← k.toNat? }
   | _ => none
 
+/-- The variant a serialized PRF-based deriver key yields (C17 "same prefix type"): the keyset entry's output prefix
+    type `outer` and the embedded derived-key template's `inner` (tink.proto numbering: 1 TINK, 2 LEGACY, 3 RAW,
+    4 CRUNCHY; 0 UNKNOWN_PREFIX, 5 WITH_ID_REQUIREMENT and anything else belong to no derivable key type) must be the
+    same value, and one the derived key type has. HMAC and Ed25519 have all four; the AEAD / DAEAD types have no
+    LEGACY keys and read LEGACY as CRUNCHY (same prefix, same computation); PRF and streaming keys are RAW only. -/
+def entryVariant? (kind : String) (outer inner : Int) : Option String :=
+  if outer ≠ inner then none else
+  if kind == "hmac" ∨ kind == "ed25519" then
+    if outer = 1 then some "T" else if outer = 2 then some "L" else if outer = 3 then some "R"
+    else if outer = 4 then some "C" else none
+  else if kind == "aesgcm" ∨ kind == "xchacha" ∨ kind == "aessiv" then
+    if outer = 1 then some "T" else if outer = 2 ∨ outer = 4 then some "C" else if outer = 3 then some "R" else none
+  else if kind == "hkdfprf" ∨ kind == "hmacprf" ∨ kind == "aesgcmhkdf" then
+    if outer = 3 then some "R" else none
+  else none
+
+/-- entry token of `accept`: kind:outer:inner -/
+def pentry? (s : String) : Option (String × Int × Int) :=
+  match s.splitOn ":" with
+  | [k, o, i] => do pure (k, ← o.toInt?, ← i.toInt?)
+  | _ => none
+
 def handle (toks : List String) : Option String :=
   match toks with
+  | ["accept", es] => do
+    -- the ENABLED entries of a serialized deriver keyset: all acceptable → the derived keys' variants, else rejected
+    let es ← (es.splitOn ";").mapM pentry?
+    match es.mapM (fun (k, o, i) => entryVariant? k o i) with
+    | none => pure "reject"
+    | some vs => pure s!"ok {";".intercalate vs}"
   | ["derive", es] => do
     let es ← if es == "-" then some [] else (es.splitOn ";").mapM dentry?
     match deriveKeyset es with
